@@ -55,6 +55,9 @@ type crcCase struct {
 	Address string `json:"address,omitempty"`
 	// Hooks: logging hooks are installed on the client (they observe; they change nothing)
 	Hooks bool `json:"hooks,omitempty"`
+	// IDLen > 0 (Read Server ID requests): the device's server id has this many bytes and no additional data (250 gives the largest
+	// RTU frame there is: 256 bytes)
+	IDLen int `json:"id_len,omitempty"`
 }
 
 func validReply(c crcCase) ([]byte, error) {
@@ -64,6 +67,9 @@ func validReply(c crcCase) ([]byte, error) {
 	}
 	d := device.New(c.DevSeed)
 	d.ForceException = c.ExcCode
+	if c.IDLen > 0 {
+		d.ServerID, d.Status, d.Additional = harness.Bytes(c.DevSeed, c.IDLen), 0xFF, []byte{}
+	}
 	return d.Answer(spec.RTU, q.Bytes()), nil
 }
 
@@ -87,6 +93,11 @@ func corrupt(reply []byte, k corruption) []byte {
 	case "prepend":
 		// extension at the front: noise bytes received before the frame (bus turn-around)
 		out = append(append([]byte(nil), k.Data...), out...)
+	case "trailer":
+		// both trailer bytes replaced: Val, then Bit (as a byte)
+		if n := len(out); n >= 2 {
+			out[n-2], out[n-1] = k.Val, byte(k.Bit)
+		}
 	case "swap":
 		// exchange two adjacent bytes (Pos, Pos+1); Pos = len-2 exchanges the two CRC bytes
 		if k.Pos+1 < len(out) {
@@ -546,6 +557,53 @@ func TestReplySizes(t *testing.T) {
 				if !chkCRC.Eval(t, crcCase{Kind: cli.RTUNet, Req: r, DevSeed: uint64(L) + harness.Seed(), Corr: corruption{Kind: "extend", Data: extra}, Cuts: cuts, EOF: 2}) {
 					return
 				}
+			}
+		}
+	}
+}
+
+// TestLargestFrames: Read Server ID replies of 250..256 bytes (only this function reaches the 256-byte maximum of an RTU frame) with
+// every single byte of the last eight substituted or flipped, and with the trailer replaced by the CRC of a shorter prefix.
+func TestLargestFrames(t *testing.T) {
+	idx := 0
+	for _, idLen := range []int{244, 247, 248, 249, 250} {
+		idx++
+		if !harness.Mine(idx) {
+			continue
+		}
+		base := crcCase{Kind: cli.RTUNet, Req: spec.Req{FC: 17, Unit: 9}, DevSeed: uint64(idLen) + harness.Seed(), IDLen: idLen, EOF: 2}
+		reply, err := validReply(base)
+		if err != nil {
+			t.Fatal(err)
+		}
+		L := len(reply)
+		for pos := L - 8; pos < L; pos++ {
+			for _, bit := range []int{0, 3, 7} {
+				c := base
+				c.Corr = corruption{Kind: "flip", Pos: pos, Bit: bit}
+				if !chkCRC.Eval(t, c) {
+					return
+				}
+			}
+			c := base
+			c.Corr = corruption{Kind: "subst", Pos: pos, Val: reply[pos] ^ 0x5A}
+			if !chkCRC.Eval(t, c) {
+				return
+			}
+		}
+		// the trailer is the CRC of a prefix that is 1..3 bytes short of the body
+		for short := 1; short <= 3; short++ {
+			body := reply[:L-2]
+			crc := spec.RefCRC16(body[:len(body)-short])
+			if byte(crc) == reply[L-2] && byte(crc>>8) == reply[L-1] {
+				continue
+			}
+			c := base
+			c.Corr = corruption{Kind: "subst", Pos: L - 2, Val: byte(crc)}
+			c2 := base
+			c2.Corr = corruption{Kind: "trailer", Val: byte(crc), Bit: int(byte(crc >> 8))}
+			if !chkCRC.Eval(t, c) || !chkCRC.Eval(t, c2) {
+				return
 			}
 		}
 	}
